@@ -18,6 +18,7 @@
 #include <signal.h>
 #include <sys/mman.h>
 #include <sys/wait.h>
+#include <execinfo.h>
 #include "mir.h"
 #include "mir-gen.h"
 
@@ -238,6 +239,17 @@ static void run_engine (const char *eng, const char *text, int dump_p) {
   flush_and_exit (0);
 }
 
+/* a crash inside the library: report where (offsets relative to main, resolved by the check with
+   addr2line) so that a recorded defect can be recognised by its crash site */
+static void crash_handler (int sig) {
+  void *bt[24];
+  int n = backtrace (bt, 24);
+  outlen = 0;
+  oprintf ("CRASH sig=%d bt=", sig);
+  for (int i = 0; i < n; i++) oprintf ("%s%lx", i ? "," : "", (unsigned long) ((char *) bt[i] - (char *) &crash_handler));
+  flush_and_exit (0);
+}
+
 static char *unescape (char *s) {
   char *d = s, *r = s;
   while (*r) {
@@ -307,6 +319,19 @@ int main (int argc, char **argv) {
         outlen = 0;
         evlen = 0; evcount = 0; oracle_pos = 0;
         alarm (timeout_s);
+        {
+          static char altstack[1 << 16];
+          stack_t ss = {.ss_sp = altstack, .ss_size = sizeof (altstack), .ss_flags = 0};
+          struct sigaction sa;
+          sigaltstack (&ss, NULL);
+          memset (&sa, 0, sizeof (sa));
+          sa.sa_handler = crash_handler;
+          sa.sa_flags = SA_ONSTACK | SA_RESETHAND;
+          sigaction (SIGSEGV, &sa, NULL);
+          sigaction (SIGBUS, &sa, NULL);
+          sigaction (SIGILL, &sa, NULL);
+          sigaction (SIGFPE, &sa, NULL);
+        }
         run_engine (eng, text, dump_p);
         _exit (0);
       }
